@@ -487,6 +487,13 @@ class Prog:
             maxc = (b - 1 - s) // stride + 1
             c = rng.randint(1, maxc)
             st[k], ct[k], sd[k] = s, c, stride
+            if v.isrec and k != 0 and not unit_stride and shape[0] >= 3 and rng.random() < 0.3:
+                # several records with a stride along the record dimension (every 2nd / 3rd record)
+                sd[0] = rng.choice([2, 2, 3])
+                st[0] = rng.randint(0, min(1, shape[0] - 1))
+                ct[0] = rng.randint(2, max(2, (shape[0] - 1 - st[0]) // sd[0] + 1)) if (shape[0] - 1 - st[0]) // sd[0] + 1 >= 2 else 1
+                if ct[0] == 1:
+                    sd[0] = 1
             out.append((st, ct, sd))
         rng.shuffle(out)
         return out
